@@ -59,4 +59,21 @@ theorem replay_of_final (T : Text) (F : SResult) (hf : FinOK T F) (hsorted : sor
       · exact Or.inl h
       · exact Or.inr h
 
+
+/-- the *text-less* replay through a map built from a text-less stream `F` of the text `T` resolves every character as a lookup in
+`F`'s chunk mappings does -/
+theorem replay_final_of_final (T : Text) (F : SResult) (hsorted : sortedFrom 1 0 (chunkMs F.evs))
+    (hsmall : ∀ m ∈ chunkMs F.evs, m.small) (sm : SMap) (hm : sm.mappings = encodeFull (chunkMs F.evs)) :
+    attrFrom (chunkMs (streamSMFinal T sm).evs) startPos T = attrFrom (chunkMs F.evs) startPos T := by
+  have hdec : decode sm.mappings = keptFrom {} (chunkMs F.evs) := by
+    rw [hm]; exact decode_encode _ hsmall (linesOK_of_sorted _ 1 0 hsorted)
+  have hsub := keptFrom_sublist (chunkMs F.evs) {}
+  rw [(lookEq_iff T _ _).1 (streamSMFinal_lookEq T sm (by rw [hdec]; exact sortedFrom_sublist _ _ 1 0 hsorted hsub))]
+  apply attrFrom_congr
+  intro q _ _
+  rw [hdec]
+  unfold lookupCols
+  exact kept_lookupGo q.line q.col (chunkMs F.evs) {} none none hsorted
+    ⟨rfl, fun _ => rfl, fun _ => rfl, fun _ => rfl, fun h => by simp at h⟩
+
 end Rs
